@@ -99,3 +99,8 @@ CASES += [
         (_INT, _DD, "    R = r1 - r2\n    RR = np.sqrt(np.dot(R,R))\n    R = R/RR\n    prf = 1.0/(4.0*const.pi*eps0_int)\n"
                     "    cc = (np.dot(d1,d2) - 3.0*np.dot(d1,R)*np.dot(d2,R))/(RR**3)\n", 1)]},
 ]
+
+CASES += [
+    {"name": "state energy sums the excited molecules only (seeded change of round 7)", "kind": "mutant", "rule": "C11-L", "edits": [
+        ("quantarhei/builders/aggregate_states.py", "        for nn in self.elsignature:\n            en += \\\n", "        for nn in self.elsignature:\n          if nn > 0:\n            en += \\\n", 1)]},
+]
